@@ -196,13 +196,25 @@ fn strategy(len: usize, no_cse: bool) -> BoxedStrategy<Case> {
 }
 
 pub fn check(case: &Case) -> Outcome {
-    check_with(case, false)
+    check_with(case, Avoid::default())
+}
+
+/// Run-time guards for root causes listed under C01 / C31 (each counted when it fires).
+#[derive(Clone, Copy, Default)]
+pub struct Avoid {
+    /// end the history before an undo of a row/column deletion whose band some formula read
+    pub undo_delete: bool,
+    /// skip a copy / cut whose source contains a spill cell
+    pub paste_spill: bool,
+    /// skip a paste whose target contains a spill cell
+    pub paste_onto_spill: bool,
 }
 
 /// `avoid_undo_delete`: end the history before an undo of a row/column deletion whose band some
 /// formula read (listed under C01 / C31: the undo leaves `#REF!` behind, and with it spill cells
 /// of an anchor that no longer spills).
-pub fn check_with(case: &Case, avoid_undo_delete: bool) -> Outcome {
+pub fn check_with(case: &Case, avoid: Avoid) -> Outcome {
+    let avoid_undo_delete = avoid.undo_delete;
     let mut o = Outcome::pass();
     let mut um = ops::new_user_model(&case.locale, &case.language);
     let mut structural = false;
@@ -220,6 +232,26 @@ pub fn check_with(case: &Case, avoid_undo_delete: bool) -> Outcome {
             o.excluded += 1;
             o = o.label("ended:undo-of-deletion-of-referenced-band");
             break;
+        }
+        if let Op::CopyPaste { src, ts, trow, tcol, .. } = op {
+            let has_spill = |sheet: u32, r1: i32, c1: i32, h: i32, w: i32| -> bool {
+                um.get_model()
+                    .workbook
+                    .worksheets
+                    .get(sheet as usize)
+                    .map(|ws| (r1..r1 + h).any(|r| (c1..c1 + w).any(|c| matches!(ws.cell(r, c), Some(Cell::SpillCell { .. })))))
+                    .unwrap_or(false)
+            };
+            if avoid.paste_spill && has_spill(ops::res_sheet(&um, src.s), src.row, src.col, src.h, src.w) {
+                o.excluded += 1;
+                o = o.label("guard-skipped:paste-of-a-spill-cell");
+                continue;
+            }
+            if avoid.paste_onto_spill && has_spill(ops::res_sheet(&um, *ts), *trow, *tcol, src.h, src.w) {
+                o.excluded += 1;
+                o = o.label("guard-skipped:paste-onto-a-spill-cell");
+                continue;
+            }
         }
         let hist_before = um.verif_history_len();
         let res = ops::apply(&mut um, op);
@@ -297,8 +329,12 @@ pub fn run(ctx: &Ctx) {
         Tier::Thorough => (3000000, 40),
     };
     let no_cse = ctx.avoid("c27-cse-arrays");
-    let undo_delete = ctx.avoid("c31-undo-of-deletion-of-referenced-band");
-    ctx.campaign("histories", cases, || strategy(len, no_cse), move |c: &Case| check_with(c, undo_delete), |c| serde_json::to_value(c).unwrap_or(Value::Null));
+    let avoid = Avoid {
+        undo_delete: ctx.avoid("c31-undo-of-deletion-of-referenced-band"),
+        paste_spill: ctx.avoid("c31-paste-of-a-spill-cell"),
+        paste_onto_spill: ctx.avoid("c31-paste-onto-a-spill-cell"),
+    };
+    ctx.campaign("histories", cases, || strategy(len, no_cse), move |c: &Case| check_with(c, avoid), |c| serde_json::to_value(c).unwrap_or(Value::Null));
 }
 
 pub fn replay(_ctx: &Ctx, _campaign: &str, case: &Value) -> Result<Outcome, String> {
